@@ -102,6 +102,22 @@ void explore13(Options const& o, std::vector<Shim*> const& shims, std::vector<Sh
       rec.add_states(S.size(), S.size(), S.size() * 2);
       }
       sweep_un_set(s, SQ_OPS[oi], Sneg, o.threads, rec, ob | (2ull << 48), [&](i64 x, i64 got, u64 ord, LocalViol& lv) { c.val(s, oi, x, got, ord, lv); });
+      // dense windows in every binade: 2^15 consecutive raw values at 2^e and at 3*2^(e-1) (accuracy and monotonicity between neighbours)
+      {
+      std::vector<i64> starts; for( int e = 20; e <= 46; ++e ) { starts.push_back(1ll << e); starts.push_back(3ll << (e - 1)); starts.push_back((1ll << (e + 1)) - (1 << 15)); }
+      parallel_blocks(starts.size(), o.threads, [&](size_t bi, int) {
+        LocalViol lv(rec); const size_t n = 1 << 15; std::vector<i64> out(n); i64 x0 = starts[bi];
+        if( x0 + static_cast<i64>(n) > LIM47 ) x0 = LIM47 - static_cast<i64>(n);
+        s->fm_un_range(SQ_OPS[oi], x0, n, out.data());
+        for( size_t i = 0; i < n; ++i )
+          {
+          i64 x = x0 + static_cast<i64>(i); u64 ord = ob | (9ull << 48) | (bi << 16) | i;
+          c.val(s, oi, x, out[i], ord, lv);
+          if( i > 0 && out[i] < out[i - 1] ) { i64 p = out[i - 1], g = out[i]; lv.hit(c.c_mono[oi], ord, [=]{ return ex1(s, SQ_N[oi], "monotone", {{"x",to_s(x)}}, ">= f(x - 1ulp) = " + to_s(p), to_s(g), "mono", {to_s(oi), to_s(x), to_s(x - 1)}); }); }
+          }
+        });
+      u64 n = static_cast<u64>(starts.size()) << 15; rec.add_states(n, n, 2 * n);
+      }
       // errno preset to EDOM / ERANGE before every call
       for( int ev : { 33, 34 } )
         {
@@ -206,8 +222,10 @@ void explore14(Options const& o, std::vector<Shim*> const& shims, std::vector<Sh
   C14 c(rec);
   std::vector<i64> P = filter_abs_below(th ? S_set(6,3) : S_set(4,3), LIM47);
   std::vector<i64> W;     // windows around the scaling thresholds of hypot
-  { i64 w = th ? 2048 : 256; for( i64 ctr : { 1ll << 30, 1ll << 16, 759250125ll /* 2^29.5 */, 1ll << 29, (1ll << 30) - (1ll << 14), 1ll << 46 } ) for( i64 d = -w; d <= w; ++d ) { W.push_back(ctr + d); W.push_back(-(ctr + d)); } }
+  { i64 w = th ? 2048 : 256; for( i64 ctr : { 1ll << 30, 1ll << 16, 759250125ll /* 2^29.5 */, 1ll << 29, (1ll << 30) - (1ll << 14), 1ll << 46, 3037000500ll /* sqrt(2^63) */, 2147483648ll /* sqrt(2^62) */, 1518500250ll /* sqrt(2^61) */ } ) for( i64 d = -w; d <= w; ++d ) { W.push_back(ctr + d); W.push_back(-(ctr + d)); } }
   std::sort(W.begin(), W.end()); W.erase(std::unique(W.begin(), W.end()), W.end());
+  std::vector<i64> W2;
+  { i64 w = th ? 1024 : 160; for( i64 ctr : { 3037000500ll, 2147483648ll, 1518500250ll } ) for( i64 d = -w; d <= w; ++d ) { W2.push_back(ctr + d); W2.push_back(-(ctr + d)); } std::sort(W2.begin(), W2.end()); }
   std::vector<i64> Ps = filter_abs_below(th ? S_set(4,2) : S_set(3,1), LIM47);
   rec.note("alphabet", "P^2 with |P|=" + std::to_string(P.size()) + " (S-shaped, |.| < 2^47); threshold windows W (|W|=" + std::to_string(W.size()) + ", around 2^16, 2^29, 2^29.5, 2^30-2^14, 2^30, 2^46) x P' (|P'|=" + std::to_string(Ps.size())
            + ") in both orders; symmetry hypot(a,b)==hypot(b,a)==hypot(|a|,|b|) on every pair");
@@ -240,6 +258,7 @@ void explore14(Options const& o, std::vector<Shim*> const& shims, std::vector<Sh
     run(P, P, ob);
     run(W, Ps, ob | (1ull << 52));
     run(Ps, W, ob | (2ull << 52));
+    run(W2, W2, ob | (3ull << 52));       // both operands next to the integer square roots of 2^61, 2^62, 2^63: where the sum of two squares wraps
     // carry-boundary pairs: 16-bit leading parts m1, m2 with m1 + m2 just above 2^16 (the sum of the operands crosses a power of
     // two), tails all ones or all zeros, at every magnitude: the inputs on which a clz-based choice of the scaling shift changes
     {
